@@ -1,5 +1,5 @@
 """C02 - Hc128Rng keystream equals HC-128 (Wu) for every key and IV."""
-from .. import terms as T
+from .. import terms as T, sq
 from ..harness import (Crate, State, Ref, ArrV, Struct, EnumV, flat_leaves, Anchor, Unsupported, SymbolicLoop, Diverged, symbolic_args, same_value)
 from ..ref import hc128 as REF, xoshiro as XREF
 from .linear import Gen, SEEDABLE
@@ -23,7 +23,7 @@ def check_generate(chk, crate, tier):
     chk.body(key)
     where = body["span"][0]
     names = [f["name"] for f in g.adt["variants"][0]["fields"]]
-    iT, iC = names.index("t"), names.index("counter1024")
+    iT, iC = sq.find_field(g.adt, "t", r"\[u32; 1024\]"), sq.find_field(g.adt, "counter1024", r"usize")
     q = T.sym("q", 54)
     bad_res, bad_tab, bad_ctr, errors = [], [], [], []
     nblocks = 0
@@ -73,7 +73,7 @@ def check_generate(chk, crate, tier):
 def check_init(chk, crate):
     g = Gen(crate, "Hc128Core")
     names = [f["name"] for f in g.adt["variants"][0]["fields"]]
-    iT, iC = names.index("t"), names.index("counter1024")
+    iT, iC = sq.find_field(g.adt, "t", r"\[u32; 1024\]"), sq.find_field(g.adt, "counter1024", r"usize")
     key = g.method(SEEDABLE, "from_seed")
     body = crate.body(key)
     chk.body(key)
